@@ -38,6 +38,7 @@ func fnDiscard(ctx *cmdContext, args map[string]any) (output respValue, err erro
 	// clear out watch map and discard multi command queue
 	ctx.cs.watches = map[watchKey]uint64{}
 	ctx.cs.cmdQueue = nil
+	ctx.cs.cmdQueueFailed = false
 	output.data = rstrOK
 	return
 }
@@ -55,6 +56,15 @@ func isAbortedExecUnlocked(cs *clientState) bool {
 func fnExec(ctx *cmdContext, args map[string]any) (output respValue, err error) {
 	if ctx.cs.cmdQueue == nil {
 		output.data = respErrorString("ERR EXEC without MULTI")
+		return
+	}
+
+	if ctx.cs.cmdQueueFailed {
+		// a command was refused while queueing: nothing is executed
+		ctx.cs.watches = map[watchKey]uint64{}
+		ctx.cs.cmdQueue = nil
+		ctx.cs.cmdQueueFailed = false
+		output.data = respErrorString("EXECABORT Transaction discarded because of previous errors.")
 		return
 	}
 
